@@ -55,7 +55,7 @@ def run_order_correspondence(outcome, tier, seed):
             continue
         idx.append(i)
         lines.append("DT %ds %s %d %d %d" % (i, shared.hx(d), r["json"], r["yaml"], r["toml"]))
-        lines.append("DT %dr %s %d %d %d" % (i, shared.hx(d), r["json_reader"], r["yaml"], r["toml"]))
+        lines.append("DT %dr %s %d %d %d" % (i, shared.hx(d), r["json_reader"], r.get("yaml_reader", r["yaml"]), r["toml"]))
     model = common.run_driver_lines(lines)
     hist = {}
     for i in idx:
@@ -66,7 +66,7 @@ def run_order_correspondence(outcome, tier, seed):
             hist[got] = hist.get(got, 0) + 1
             if got != m:
                 outcome.disagreements.append({"what": "detect_format (%s) differs from the model's first-accepting-trial order" % which,
-                                              "input_hex": shared.hx(inputs[i]), "trials": {k: r[k] for k in ("json", "json_reader", "yaml", "toml")},
+                                              "input_hex": shared.hx(inputs[i]), "trials": {k: r.get(k) for k in ("json", "json_reader", "yaml", "yaml_reader", "toml")},
                                               "implementation": got, "model": m})
     outcome.evaluations += len(reqs)
     outcome.traces_validated += len(idx)
